@@ -255,3 +255,56 @@ def check_generators_once(rep: Report, prog: Program, rule: str, funcs: List[Fun
                    'consumed at most once' if bad is None else
                    f"consumed at {cfg.describe(bad[0])} and again at {cfg.describe(bad[1])}: the second use only sees what the first left over")
     return n
+
+
+def check_returns_verified(rep: Report, rule: str, f: FuncInfo) -> int:
+    """unique_label_name(base, avoid): whatever is returned was, on every path, last seen failing a membership test against the
+    names to avoid -- walking back from each `return X`, every path meets the false side of `X in <names>` (or the true side of
+    `X not in <names>`) before it meets a binding of X or the function entry.  A name computed and returned untested (a count of
+    the names taken so far, a suffix remembered from last time) is only unique under assumptions about how the names were made."""
+    import ast as _ast
+    from ..cfg import cfg_of
+    from ..guards import collect_atoms, assigned_names
+    from ..model import norm as _norm, names_in as _names_in
+    cfg = cfg_of(f)
+    n = 0
+    for r, nd in cfg.nodes.items():
+        if nd.kind != 'return' or nd.stmt is None or nd.stmt.value is None:
+            continue
+        n += 1
+        X = _norm(nd.stmt.value)
+        xnames = _names_in(nd.stmt.value)
+        bad = None
+        seen = set()
+        work = [(r, None)]
+        while work and bad is None:
+            m, via = work.pop()
+            for p_, lab in cfg.pred[m]:
+                if lab == 'exc' or (p_, lab) in seen:
+                    continue
+                seen.add((p_, lab))
+                pn = cfg.nodes[p_]
+                if pn.kind == 'test' and pn.expr is not None:
+                    ok_edge = False
+                    e = pn.expr
+                    neg = False
+                    while isinstance(e, _ast.UnaryOp) and isinstance(e.op, _ast.Not):
+                        e = e.operand; neg = not neg
+                    if isinstance(e, _ast.Compare) and len(e.ops) == 1 and isinstance(e.ops[0], (_ast.In, _ast.NotIn)) and _norm(e.left) == X:
+                        is_in = isinstance(e.ops[0], _ast.In) != neg
+                        ok_edge = (lab == 'false') if is_in else (lab == 'true')
+                    if ok_edge:
+                        continue                       # verified on this path
+                    work.append((p_, lab))
+                    continue
+                if pn.kind == 'entry':
+                    bad = 'the function entry'
+                    break
+                if pn.kind in ('stmt', 'for', 'with') and pn.stmt is not None and (assigned_names(pn.stmt) & xnames):
+                    bad = f"`{_norm(pn.stmt)[:60]}`"
+                    break
+                work.append((p_, lab))
+        rep.ob(rule, f.fq(), f"return {X[:50]}: tested against the names to avoid after it was last computed", f.loc(nd.stmt), bad is None,
+               'every path to this return comes from the not-in side of a membership test of the returned name' if bad is None else
+               f"a path reaches this return from {bad} without testing `{X[:40]}` against the names to avoid: the name is fresh only if the existing names follow the pattern the computation assumes")
+    return n
